@@ -520,33 +520,30 @@ func (f *c35Fn) caseBodyBlock(g *cfg.CFG, cc *ast.CommClause) *cfg.Block {
 
 func (f *c35Fn) ruleP4() {
 	c := f.c
-	// ---- reading stage: the stage that calls a (T, error) method of the iterator
-	var reader *c35Stage
-	var nextCall *ast.CallExpr
-	for _, s := range f.stages {
-		ast.Inspect(s.lit.Body, func(n ast.Node) bool {
-			if call, ok := n.(*ast.CallExpr); ok {
-				if m, ok := f.iterMethodCall(call); ok && m != "Close" {
-					if t, ok := f.info.TypeOf(call).(*types.Tuple); ok && t.Len() == 2 {
-						if reader == nil || reader == s {
-							if nextCall != nil && nextCall != call {
-								nextCall = nil // more than one: undecided below
-								reader = nil
-								return false
-							}
-							reader, nextCall = s, call
-						}
-					}
+	// ---- reading stage: the one place where a (T, error) method of the iterator is called
+	type site struct {
+		s    *c35Stage
+		call *ast.CallExpr
+	}
+	var sites []site
+	ast.Inspect(f.fd.Body, func(n ast.Node) bool {
+		if call, ok := n.(*ast.CallExpr); ok {
+			if m, ok := f.iterMethodCall(call); ok && m != "Close" {
+				if t, ok := f.info.TypeOf(call).(*types.Tuple); ok && t.Len() == 2 {
+					sites = append(sites, site{f.stageOf(call), call})
 				}
 			}
-			return true
-		})
-	}
+		}
+		return true
+	})
 	var rowCh *c35Chan
-	if reader == nil || nextCall == nil {
-		c.Undecided("C35-P4", f.name+"/reading-stage", f.fd.Pos(), "no stage with exactly one (row, error) call on the iterator")
-	} else {
-		rowCh = f.p4Reader(reader, nextCall)
+	switch {
+	case len(sites) != 1:
+		c.Bad("C35-P4", f.name+"/reading-stage", f.fd.Pos(), fmt.Sprintf("%s: the iterator is read at %d places (want exactly one, inside one stage): two readers interleave the rows, none delivers nothing", f.name, len(sites)))
+	case sites[0].s == nil || f.unitOf(sites[0].call) != sites[0].s.lit:
+		c.Bad("C35-P4", f.name+"/reading-stage", sites[0].call.Pos(), f.name+": the iterator is read outside the stages")
+	default:
+		rowCh = f.p4Reader(sites[0].s, sites[0].call)
 	}
 	// ---- batching stage: receives from the reader's channel and sends on another
 	if rowCh == nil || rowCh.receiver == nil {
@@ -1336,8 +1333,11 @@ func (f *c35Fn) ruleFlag() {
 				if st, ok := x.(ast.Stmt); ok && comms[st] != nil {
 					return true
 				}
-				_, isRet := x.(*ast.ReturnStmt)
-				return isRet
+				if ret, isRet := x.(*ast.ReturnStmt); isRet {
+					k, _, _ := c35UnitOfLit(f, s.lit).retErr(ret)
+					return k == c35RetNil // an error return fails the statement anyway
+				}
+				return false
 			}, nil)
 			if p != nil {
 				// or the callback call precedes it on every path from the stage entry
